@@ -82,7 +82,13 @@ def k4_with_indices(prop, repo, verif, workdir, tier, seed, log):
           ("substring_ascii", "WithIndices<&str>::substring.get_unchecked.pre(ascii)"),
           ("substring_empty", "WithIndices<&str>::substring.get_unchecked.pre(empty)")]
     bound = "bounded: text from a 5-entry catalogue; start_index/end_index symbolic over all of usize x usize (complete in the indices)"
-    return [K.run_set("with_indices", prop, repo, verif, workdir, mods, hs, log, bounded=bound, jobs=6, timeout=600)]
+    st = K.run_set("with_indices", prop, repo, verif, workdir, mods, hs, log, bounded=bound, jobs=6, timeout=600)
+    mods2 = {"src/rope.rs": [os.path.join(verif, "kani", "rope_degenerate.rs")]}
+    hs2 = [("rope_from_empty_iter_slice", "Rope::get_byte_slice/get_byte.get_unchecked.pre(from_iter of no pieces)"),
+           ("rope_from_empty_pieces_slice", "Rope::get_byte_slice/get_byte.get_unchecked.pre(from_iter of empty pieces)")]
+    st2 = K.run_set("rope_degenerate", prop, repo, verif, workdir, mods2, hs2, log, jobs=2, timeout=600,
+                    bounded="bounded: the two degenerate rope shapes (multi-piece representation holding no piece); range symbolic over all of usize x usize")
+    return [st, st2]
 
 
 def k5_codec_cross(prop, repo, verif, workdir, tier, seed, log):
